@@ -97,6 +97,13 @@ PanicIffOutOfRange ==
 
 Terminates == <>(pc # "run")
 
+(* Refinement of the module whose invariants are PROVED for every length, position and pivot sequence by TLAPS   *)
+(* (SelectAlg.tla, proofs in SelectProof.tla): every behaviour of this machine with an in-range position is a   *)
+(* behaviour of that one - in particular each partition step satisfies the contract assumed there.              *)
+ZeroBased(s) == [x \in 0..(Len(s) - 1) |-> s[x + 1]]
+PP == INSTANCE SelectAlg WITH Len0 <- Len(init), Want0 <- want0, arr <- ZeroBased(arr)
+RefinesProof == PP!Spec
+
 (* One line per complete behaviour, replayed into the real code by the harness. *)
 EmitInv ==
     (Emit /\ pc # "run") =>
